@@ -503,6 +503,18 @@ func Le(a, b *Term) *Term { return cmpInt("<=", a, b) }
 func Gt(a, b *Term) *Term { return cmpInt(">", a, b) }
 func Ge(a, b *Term) *Term { return cmpInt(">=", a, b) }
 
+// Idx is the element index off+i, kept as an uninterpreted application so that quantifier triggers
+// contain no arithmetic; its meaning is supplied by ground instances and a triggered axiom (Render).
+func Idx(off, i *Term) *Term {
+	if off.Op == "int" && off.Int.Sign() == 0 {
+		return i
+	}
+	if off.Op == "int" && i.Op == "int" {
+		return Add(off, i)
+	}
+	return UF("idx", IntSort, off, i)
+}
+
 func Forall(bound []*Term, body *Term, pats [][]*Term) *Term {
 	if body == True {
 		return True
@@ -697,7 +709,7 @@ type strLitInfo struct {
 	val  string
 }
 
-var strLits = map[*Term]string{}   // term -> literal value
+var strLits = map[*Term]string{}     // term -> literal value
 var strLitByVal = map[string]*Term{} // value -> term
 
 func StrLit(v string) *Term {
@@ -737,9 +749,9 @@ func (sc *Script) Render(logic string, extraAxioms []*Term, wantModel bool) stri
 		sort.Slice(lits, func(i, j int) bool { return lits[i].id < lits[j].id })
 		for _, l := range lits {
 			v := strLits[l]
-			litAx = append(litAx, Eq(UF("str.len", IntSort, l), IntLit(int64(len(v)))))
+			litAx = append(litAx, Eq(UF("str_len", IntSort, l), IntLit(int64(len(v)))))
 			for i := 0; i < len(v) && i < 16; i++ {
-				litAx = append(litAx, Eq(UF("str.at", IntSort, l, IntLit(int64(i))), IntLit(int64(v[i]))))
+				litAx = append(litAx, Eq(UF("str_at", IntSort, l, IntLit(int64(i))), IntLit(int64(v[i]))))
 			}
 		}
 		if len(lits) > 1 {
@@ -748,6 +760,80 @@ func (sc *Script) Render(logic string, extraAxioms []*Term, wantModel bool) stri
 		for _, a := range litAx {
 			collect(a, seen, &order)
 		}
+	}
+	// meaning of idx(off,i): ground instances always, the triggered axiom when quantifiers are present
+	{
+		anyQ := false
+		var ground []*Term
+		for _, t := range order {
+			if t.Op == "forall" || t.Op == "exists" {
+				anyQ = true
+			}
+			if t.Op == "uf" && t.Name == "idx" && !t.open {
+				ground = append(ground, Eq(t, Add(t.Args[0], t.Args[1])))
+			}
+		}
+		used := len(ground) > 0
+		for _, t := range order {
+			if t.Op == "uf" && t.Name == "idx" {
+				used = true
+			}
+		}
+		if used && anyQ {
+			o := BoundVar("o", IntSort)
+			i := BoundVar("i", IntSort)
+			app := UF("idx", IntSort, o, i)
+			ground = append(ground, Forall([]*Term{o, i}, Eq(app, Add(o, i)), [][]*Term{{app}}))
+		}
+		for _, a := range ground {
+			collect(a, seen, &order)
+		}
+		litAx = append(litAx, ground...)
+	}
+	// type facts about the contents of symbolic heap arrays (references are allocated, ints in range)
+	{
+		anyQ := false
+		var consts []*Term
+		for _, t := range order {
+			if t.Op == "forall" || t.Op == "exists" {
+				anyQ = true
+			}
+			if _, ok := heapConsts[t]; ok {
+				consts = append(consts, t)
+			}
+		}
+		var facts []*Term
+		if len(consts) > 0 {
+			for _, t := range order {
+				if t.Op != "select" || t.open || t.Sort.Kind == SArray {
+					continue
+				}
+				// full-depth read of a registered constant (possibly through stores)?
+				if hc, ok := heapReadRoot(t); ok {
+					facts = append(facts, scalarFact(hc.comp, t, hc.wm))
+				}
+			}
+			if anyQ {
+				for _, c := range consts {
+					hc := heapConsts[c]
+					var bound []*Term
+					cur := c
+					for cur.Sort.Kind == SArray {
+						b := BoundVar("h", cur.Sort.Idx)
+						bound = append(bound, b)
+						cur = mk("select", cur.Sort.Elem, cur, b)
+					}
+					f := scalarFact(hc.comp, cur, hc.wm)
+					if f != True {
+						facts = append(facts, Forall(bound, f, [][]*Term{{cur}}))
+					}
+				}
+			}
+		}
+		for _, a := range facts {
+			collect(a, seen, &order)
+		}
+		litAx = append(litAx, facts...)
 	}
 	var sb strings.Builder
 	if wantModel {
@@ -829,4 +915,17 @@ func (sc *Script) Render(logic string, extraAxioms []*Term, wantModel bool) stri
 		}
 	}
 	return sb.String()
+}
+
+// heapReadRoot: t is select(...select(A, i)..., j) down to a scalar where A, after peeling stores, is a
+// registered heap constant. Reads that may hit a stored value are excluded (the stored value has its own facts).
+func heapReadRoot(t *Term) (heapConstInfo, bool) {
+	cur := t
+	for cur.Op == "select" {
+		cur = cur.Args[0]
+	}
+	if hc, ok := heapConsts[cur]; ok {
+		return hc, true
+	}
+	return heapConstInfo{}, false
 }
